@@ -100,7 +100,57 @@ def _long_arc_bundles(tier, seed, find, props, comps, dds=("pooled",)):
                 f = dict(fam)
                 if s in seeds[nq:]:
                     f.update(n=4, b=2)
-                out.append(P(kind="dd", dd=dd, comp=comp, seed=s, width="1,2,3", roots="all", rub=("hslack" if i % 2 else "none"), lb="sym", hist=0, rev=i % 2, props=props, **f, **lim))
+                out.append(P(kind="dd", dd=dd, comp=comp, seed=s, width="1,2,3", roots="all", rub=("hslack" if i % 2 else "none"), lb="sym", hist=0, rev=i % 2, perm=i % 2, props=props, **f, **lim))
+    return out
+
+
+FUNCS_SOLVE = [
+    "ddo::SequentialSolver<St, D, C>::{custom, maximize, best_value, best_solution, best_lower_bound, best_upper_bound, set_primal, explored} for D in {Mdd<LEL>, Mdd<FRONTIER>, Pooled}, C in {EmptyCache, SimpleCache}",
+    "ddo::{SimpleFringe, NoDupFringe}<MaxUB<ByMask>>, ddo::{FixedWidth, NbUnassignedWidth}, ddo::SimpleCache, everything compile() reaches",
+]
+
+
+def _solve_bundles(tier, seed, find, props, modes, fams=None, dds=DD3, caches=("0", "1"), fringes=("simple", "nodup"), widths=("1", "2", "0"), nseeds=None, kmax=40, directed=()):
+    lim = _limits(tier)
+    base = seed * 1000
+    nq = nseeds or (2 if tier == "quick" else 10)
+    if fams is None:
+        fams = [
+            dict(n=3, b=2, d=2, setnext=1, nsym=6),
+            dict(n=3, b=3, d=2, setnext=1, nsym=5),
+            dict(n=3, b=3, d=2, setnext=0, nsym=6, depth_free=1),
+            dict(n=3, b=2, d=2, setnext=1, nsym=5, bonus=1),
+            dict(n=4, b=2, d=2, setnext=1, nsym=5, perm=1),
+        ]
+    out = []
+    i = 0
+    for fi, fam in enumerate(fams):
+        seeds = [base + 100 * fi + k + 1 for k in range(nq)]
+        for feat in directed:
+            seeds += find([feat], {k: v for k, v in fam.items() if k != "nsym"}, 1, base + 100 * fi + 50)
+        for s in seeds:
+            for dd in dds:
+                for mode in modes:
+                    i += 1
+                    for ca in caches:
+                        for fr in fringes:
+                            out.append(P(kind="solve", dd=dd, cache=ca, fringe=fr, width=",".join(widths), mode=mode, seed=s, rub=("hslack" if i % 2 else "none"), rev=i % 2, sym_init=(1 if i % 3 == 0 else 0), warm=i % 5, kmax=kmax, props=props, **fam, **lim))
+    return out
+
+
+def _polls_bundles(tier, seed, props):
+    """one-run oracle for all cut-off points at once (Mode::Polls), on slightly larger models"""
+    lim = dict(max_paths=600, max_secs=15) if tier == "quick" else dict(max_paths=20000, max_secs=600)
+    base = seed * 1000
+    nq = 4 if tier == "quick" else 16
+    out = []
+    i = 0
+    for fi, fam in enumerate([dict(n=4, b=2, d=2, setnext=1, nsym=5), dict(n=3, b=3, d=2, setnext=1, nsym=5), dict(n=4, b=2, d=2, setnext=0, nsym=5, depth_free=1)]):
+        for k in range(nq):
+            s = base + 300 + 20 * fi + k
+            for dd in DD3:
+                i += 1
+                out.append(P(kind="solve", dd=dd, cache=str(i % 2), fringe=("nodup" if (i // 2) % 2 else "simple"), width="1,2", mode="polls", seed=s, rub=("none" if i % 4 == 0 else "hslack"), rev=i % 2, props=props, **fam, **lim))
     return out
 
 
@@ -133,6 +183,27 @@ def plan(prop, tier, seed, find):
         b = _dd_bundles(tier, seed, find, "C20", ["relaxed", "restricted", "exact"], [1, 2], extra_fams=(tier != "quick"), viz_all=True)
         return dict(engine="symx", bundles=b, prefixes=["C20:"], vacuity=dict(viz_checked=1), functions=FUNCS_DD, bounds=bound_dd + "; all 64 flag combinations on every explored path",
                     nontrivial=("decided sub-case with >= 2 explored paths", lambda r: r["paths"] >= 2))
+    bound_solve = ("table models over mask states: n<=4 variables, <=3 base states, 2 decisions, 4-6 symbolic arc costs in +-10^6 (the other costs concrete, seeded), "
+                   "configurations {LEL, frontier, pooled} x {no cache, SimpleCache} x {SimpleFringe, NoDupFringe} x widths {1, 2, NbUnassigned} x rub {none, h+symbolic slack} x both rankings; per sub-case budget %s" % _limits(tier))
+    if prop == "C01":
+        return dict(engine="symx", bundles=_solve_bundles(tier, seed, find, "C01", ["plain"], directed=("dead_end",)), prefixes=["C01:", "nontermination"], vacuity=dict(explored_ge2=1, merge=1), functions=FUNCS_SOLVE, bounds=bound_solve,
+                    nontrivial=("decided sub-case in which the solver processed >= 2 sub-problems on some path", lambda r: r["notes"].get("explored_ge2", 0) > 0))
+    if prop == "C02":
+        return dict(engine="symx", bundles=_solve_bundles(tier, seed, find, "C02", ["plain", "cutoff"], nseeds=(1 if tier == "quick" else 6)), prefixes=["C02:"], vacuity=dict(interrupted=1, not_interrupted=1), functions=FUNCS_SOLVE, bounds=bound_solve + "; cut-off poll K symbolic in 1..40 (every poll of the run forks)",
+                    nontrivial=("decided sub-case with >= 2 explored paths", lambda r: r["paths"] >= 2))
+    if prop == "C05":
+        return dict(engine="symx", bundles=_solve_bundles(tier, seed, find, "C05", ["cutoff"]) + _polls_bundles(tier, seed, "C05"), prefixes=["C05:"], vacuity=dict(interrupted=1, not_interrupted=1, polls_ge8=1), functions=FUNCS_SOLVE, bounds=bound_solve + "; cut-off poll K symbolic in 1..40 (sequential solver; parallel part see C05 in DESIGN.md)",
+                    nontrivial=("decided sub-case in which the cut-off interrupted the run on some path", lambda r: r["notes"].get("interrupted", 0) > 0))
+    if prop == "C19":
+        return dict(engine="symx", bundles=_solve_bundles(tier, seed, find, "C19", ["cutoff2"]) + _polls_bundles(tier, seed, "C19"), prefixes=["C19:"], vacuity=dict(interrupted=1, boundary=1, polls_ge8=1), functions=FUNCS_SOLVE, bounds=bound_solve + "; two solver runs with cut-off at poll K and K+1 inside one symbolic execution, K symbolic in 1..40; plus, on n=4 models, one uninterrupted run whose wrappers record the upper bound at every poll (covers all K at once; counterexamples are replayed with real cut-off runs)",
+                    nontrivial=("decided sub-case in which the cut-off interrupted the run on some path", lambda r: r["notes"].get("interrupted", 0) > 0))
+    if prop == "C14":
+        return dict(engine="symx", bundles=_solve_bundles(tier, seed, find, "C14", ["warm"]), prefixes=["C14:"], vacuity=dict(merge=1), functions=FUNCS_SOLVE, bounds=bound_solve + "; primal = value and decisions of an enumerated feasible path (index seeded)",
+                    nontrivial=("decided sub-case with >= 2 explored paths", lambda r: r["paths"] >= 2))
+    if prop == "C09":
+        fams = [dict(n=3, b=2, d=2, setnext=1, nsym=6), dict(n=4, b=2, d=2, setnext=1, nsym=6), dict(n=4, b=2, d=2, setnext=0, nsym=7), dict(n=3, b=3, d=2, setnext=1, nsym=5, depth_free=1)]
+        return dict(engine="symx", bundles=_solve_bundles(tier, seed, find, "C09", ["plain"], fams=fams, caches=("1",), nseeds=(3 if tier == "quick" else 12)), prefixes=["C09:", "nontermination"], vacuity=dict(explored_ge2=1, explored_ge4=1), functions=FUNCS_SOLVE + ["kani: Cache::must_explore"], bounds=bound_solve + "; SimpleCache only, re-convergent structures (2 base states per layer)",
+                    nontrivial=("decided sub-case in which the solver processed >= 2 sub-problems on some path", lambda r: r["notes"].get("explored_ge2", 0) > 0), kani=["C09"])
     if prop == "C17":
         return dict(engine="kani", bundles=[], prefixes=[], vacuity={}, functions=[], bounds="none: Solver::gap is loop-free; all 2^128 pairs (lb, ub) with lb <= ub, IEEE-754 f32 semantics, decided by CBMC",
                     nontrivial=("n/a", lambda r: False), kani=["C17"])
